@@ -270,6 +270,32 @@ func rewriteGo(f *ast.File, shim string, needShim, changed *bool) {
 		}
 		*needShim = true
 		*changed = true
+		// The value is evaluated once into a temporary only if evaluating it can have an effect (a call, a receive, a
+		// function literal); otherwise it stays where it is: a temporary would give an untyped constant or nil a
+		// default type (or none) that the channel's element type need not accept.
+		effect := false
+		ast.Inspect(snd.Value, func(n ast.Node) bool {
+			switch u := n.(type) {
+			case *ast.CallExpr, *ast.FuncLit:
+				effect = true
+			case *ast.UnaryExpr:
+				if u.Op == token.ARROW {
+					effect = true
+				}
+			}
+			return !effect
+		})
+		if !effect {
+			sel.Body.List[0].(*ast.CommClause).Comm = &ast.SendStmt{Chan: id(c), Value: snd.Value}
+			return &ast.BlockStmt{List: []ast.Stmt{
+				&ast.AssignStmt{Lhs: []ast.Expr{id(c)}, Tok: token.DEFINE, Rhs: []ast.Expr{snd.Chan}},
+				&ast.IfStmt{
+					Cond: &ast.UnaryExpr{Op: token.NOT, X: call("Controlled")},
+					Body: &ast.BlockStmt{List: []ast.Stmt{&ast.SendStmt{Chan: id(c), Value: snd.Value}}},
+					Else: &ast.BlockStmt{List: []ast.Stmt{loop}},
+				},
+			}}
+		}
 		return &ast.BlockStmt{List: []ast.Stmt{
 			&ast.AssignStmt{Lhs: []ast.Expr{id(c), id(x)}, Tok: token.DEFINE, Rhs: []ast.Expr{snd.Chan, snd.Value}},
 			&ast.IfStmt{
